@@ -338,7 +338,8 @@ func (p *parser) parsePrecList(Tklist *[]TokenDef) []PrecDef {
 					p.backup()
 				}
 			}
-			if !p.TokenDefMap[IdName] || numbered {
+			// a tag or a number given here also applies to a token that is declared already
+			if !p.TokenDefMap[IdName] || numbered || Tag != "" {
 				id := Idendity{
 					Tag: Tag,
 					// noname need do for sepical.
